@@ -153,7 +153,9 @@ Record slot := mk_slot {
   s_tree : rtree }.
 Record state := mk_state { trees : list slot; regs : list (option hnd) }.
 Definition dead_slot : slot := mk_slot true 0 (Tok ERROR []).
-Definition empty_state : state := mk_state [] [].
+(* the register machine starts with its five working registers empty: 0 the root Relations,
+   1/3 entry registers 0/1, 2/4 relation registers 0/1 (more are added on demand) *)
+Definition empty_state : state := mk_state [] [None; None; None; None; None].
 
 Definition M (A : Type) : Type := state -> res (A * state).
 Definition ret {A} (a : A) : M A := fun s => Ok (a, s).
